@@ -17,6 +17,7 @@ def run(ctx, rep):
     textparse.rule_host_parser_text_admitted(ctx, rep, "C13-R11", modules=("lexer", "parser"), floor=3)
     frontend.rule_bulk_paths_keep_token_grammar(ctx, rep, "C13-R12")
     frontend.rule_unary_before_exponent_rejected(ctx, rep, "C13-R13")
+    frontend.rule_nested_array_element_continues(ctx, rep, "C13-R14")
     rep.undecided += [
         "layout independence and print/parse round trip over all token sequences (no printer exists in the repo; generative/differential property)",
         "alternative literal spellings denote the same value (value property)",
